@@ -234,3 +234,18 @@ PROPS["C20"] = {
     "outside": ["ABCIQueryWithOptions / proof runtime (IAVL-style ops)", "ConsensusParams, BlockchainInfo, websocket subscriptions", "symbolic transaction bytes (concrete here)"],
     "timeout_quick": 300, "timeout_thorough": 600,
 }
+
+PROPS["C13"] = {
+    "files": ["blockchain/v0/reactor.go", "blockchain/v0/pool.go", "types/block.go", "types/validator_set.go"],
+    "groups": [
+        {"dir": "blockchain/v0",
+         "quick": ["VP_C13_Accept"],
+         "thorough": []},
+    ],
+    "bounds": {
+        "acceptance step (H1)": "the real BlockchainReactor.poolRoutine (its goroutines and tickers scheduled by the engine on virtual time) with two blocks already received from two peers; 4 validators of power 10, a different validator set from height 2 on; `first` canonical or another well-formed block; second.LastCommit for the canonical block or for `first`, each of its 4 slots one of {genuine, junk signature, absent, genuine signature under another validator's address}; real block store (MemDB) and real ValidateBlock; after the step: what was saved, executed, which peers were dropped, and whether types.CommitToVoteSet on the stored seen commit (what consensus does when it takes over) succeeds",
+    },
+    "stubs": ["p2p.Switch methods (Peers, StopPeerForError, Reactor, NumPeers) and BlockExecutor.ApplyBlock replaced by recorders (engine-level function interception): counterexamples are replayed in the interpreter", "requester goroutines emulated (a redo clears the requester's block)", "ed25519/sha256 concrete (real)"],
+    "outside": ["v1/v2 reactors", "pool bookkeeping (AddBlock / peer ranges / timeouts): H2 is not built", "reaching the tip over several blocks"],
+    "timeout_quick": 300, "timeout_thorough": 600,
+}
